@@ -1018,3 +1018,34 @@ Example scopes_checked_on_every_request :
    [AuthCalled 0 [2]; Respond 403 50];
    [AuthCalled 0 [1]; Bind; Handle (Some 7) [1]; Respond 200 0]].
 Proof. reflexivity. Qed.
+
+(* ---- the response format check of validateRequest does not touch a refusal ---- *)
+Lemma cut_at_bind_no_bind : forall tr, existsb is_bind tr = false -> cut_at_bind tr = tr.
+Proof.
+  induction tr as [|ev r IH]; intros H; [reflexivity|].
+  cbn [existsb] in H. apply Bool.orb_false_iff in H. destruct H as [Hev Hr].
+  destruct ev; cbn [is_bind] in Hev; try discriminate; cbn [cut_at_bind]; rewrite (IH Hr); reflexivity.
+Qed.
+
+Lemma refusal_whatever_accept : forall out alts az bind_ok fmt_ok,
+  existsb is_bind (secure_handler out alts az bind_ok) = false ->
+  secure_handler_fmt out alts az bind_ok fmt_ok = secure_handler out alts az bind_ok /\
+  sec_ok_fmt out alts az bind_ok fmt_ok true (secure_handler_fmt out alts az bind_ok fmt_ok) =
+  sec_ok out alts az bind_ok true (secure_handler out alts az bind_ok).
+Proof.
+  intros out alts az bind_ok fmt_ok H.
+  assert (E : secure_handler_fmt out alts az bind_ok fmt_ok = secure_handler out alts az bind_ok).
+  { unfold secure_handler_fmt. destruct fmt_ok; [reflexivity|]. apply cut_at_bind_no_bind. exact H. }
+  split; [exact E|]. rewrite E. unfold sec_ok_fmt. destruct fmt_ok; [reflexivity|].
+  destruct (responded (secure_handler out alts az bind_ok)) as [[c m]|] eqn:R; [|reflexivity].
+  cbv beta iota.
+  match goal with |- (if ?g then _ else _) = _ => destruct g end; [|reflexivity].
+  symmetry. apply secure_handler_satisfies_property.
+Qed.
+
+(* no acceptable format: neither binding nor the handler runs, whoever the request comes from *)
+Lemma cut_at_bind_stops : forall tr, existsb is_bind (cut_at_bind tr) = false.
+Proof.
+  induction tr as [|ev r IH]; [reflexivity|].
+  destruct ev; cbn [cut_at_bind existsb is_bind]; try exact IH; reflexivity.
+Qed.
